@@ -10,6 +10,7 @@ EXPLANATION = (
     "before the file exists), the manager's cleanup removes every tracked file, and each owner of spill state "
     "(SpillManager, AsyncSpillManager, ExternalSort, PartitionedState) has a Drop impl that reaches file removal; "
     "(R2) the spill codec's writer and reader agree (same rule as C16-R4). (R3) the comparator that sorts spilled runs and the one that merges them (found by use) treat direction and NULL placement alike. "
+    "(R4) an element pulled from an iterator an operator keeps across calls is used before any return; (R5) what an intermediate push operator collected is forwarded before its stop request is propagated. "
     "Equality of results across strategies, "
     "worker counts or memory budgets is not decided.")
 ASSUMPTIONS = ["std::fs::remove_file / tokio remove_file are the removal primitives"]
